@@ -20,7 +20,7 @@ type vxSessModel struct {
 // (quiescent point) the session index must contain exactly the live sessions
 // under their current ids, closed sessions stay closed, fail fast and have
 // fired their close notification and disconnect hook exactly once.
-// args: steps
+// args: steps[, closedToo(1: SetID is also issued on sessions that have ended)]
 func VX_C07_History(args []int) {
 	steps := args[0]
 	var log []string
@@ -74,6 +74,15 @@ func VX_C07_History(args []int) {
 			}
 			m := ms[vxChoose("who", len(ms))]
 			if !m.live {
+				if len(args) > 1 && args[1] == 1 {
+					// an id change on a session that has ended changes nothing in the index:
+					// the session stays out of it and no live session is displaced
+					nid := ids[vxChoose("id", len(ids))]
+					m.sess.SetID(nid)
+					vxWaitIdle()
+					m.id = nid
+					break
+				}
 				continue
 			}
 			nid := ids[vxChoose("id", len(ids))]
